@@ -18,6 +18,7 @@ func ruleC13(w *World, r *Report) {
 		"R13.3 rate limiter decision table: unknown F-SEID → store time.Now(), pass; known and Since(last) ≥ interval → store time.Now(), pass; otherwise no store, suppress; Notify forwards exactly the F-SEID it was given and only on a pass; one notifier per listener goroutine; " +
 		"R13.4 dispatch: Serve hands the received F-SEID unchanged to handleDigestReport; R13.5 crash/exit obligations of the two listeners (short digests, short reads)."
 	r.Explanation += " R13.6 Notify/shouldNotify are plain calls on the goroutine that created the notifier (the limiter's Load-then-Store is not atomic)."
+	r.Explanation += " R13.2 (cont.) FAR IDs compared without narrowing; R13.7 go notifyListen on every path after the notification socket was dialled; R13.8 the limiter's entries are deleted only under a test on notificationInterval."
 	r.NotDecided = "'at most one per interval' as a statement about wall-clock time (time.Now/time.Since are trusted); whether the datapath produces a report (BESS/UP4 side)"
 
 	h := w.Fn(P, "pfcpiface.(*PFCPConn).handleDigestReport")
